@@ -256,10 +256,17 @@ class Zoo:
         from flexstack.security.certificate_library import CertificateLibrary
         return CertificateLibrary(self.backend, [self.root] if roots is None else roots, [self.aa] if aas is None else aas, list(ats))
 
-    def station_security(self, own_at, known_ats=(), with_sign=True):
+    def at_under_all(self):
+        """An authorization ticket issued by the second AA (aa_all) of the same root."""
+        if getattr(self, "_at_all", None) is None:
+            from flexstack.security.certificate import OwnCertificate
+            self._at_all = OwnCertificate.initialize_certificate(self.backend, tbs_at([36, 37, 638, 999]), self.aa_all)
+        return self._at_all
+
+    def station_security(self, own_at, known_ats=(), with_sign=True, aas=None):
         from flexstack.security.sign_service import SignService
         from flexstack.security.verify_service import VerifyService
-        lib = self.library(known_ats)
+        lib = self.library(known_ats, aas=aas)
         sign = SignService(self.backend, lib)
         if own_at is not None:
             sign.add_own_certificate(own_at)
